@@ -150,6 +150,45 @@ pub fn check(_ctx: &Ctx, input: &Input) -> CaseResult {
             }
         }
     }
+    // history: emit, then edit, then emit must equal (fresh parse) edit, emit —
+    // an earlier emit may leave nothing behind that later emits can see
+    {
+        let h = out.hash;
+        let eb: Vec<u8> = (0..48).map(|i| (mix(h, 1000 + i) >> 21) as u8).collect();
+        let edit = |m: &mut walrus::Module| -> Option<usize> {
+            let mut ch = crate::ch::Ch::new(&eb);
+            let n = 2 + ch.below(6);
+            let mut done = 0;
+            for _ in 0..n {
+                if crate::edits::insert_const_drop(m, &mut ch).is_some() {
+                    done += 1;
+                }
+            }
+            Some(done)
+        };
+        if let Ok(Some(k)) = guard("edit", || edit(&mut m)) {
+            if k > 0 {
+                if let (Ok(after_emit), Ok(Ok(mut fresh))) = (wal::emit(&mut m), wal::parse(&p.bytes, &cfg)) {
+                    if let Ok(Some(_)) = guard("edit", || edit(&mut fresh)) {
+                        if let Ok(reference) = wal::emit(&mut fresh) {
+                            out.label("history:emit-edit-emit");
+                            if reference != after_emit {
+                                return Err(Failure::new(
+                                    format!("emit-leaves-state-behind:{}", first_diff(&reference, &after_emit)),
+                                    format!(
+                                        "emit; edit; emit gives {} bytes, a fresh parse with the same edit gives {} bytes: the first emit influenced the second [{}]",
+                                        after_emit.len(),
+                                        reference.len(),
+                                        p.origin
+                                    ),
+                                ));
+                            }
+                        }
+                    }
+                }
+            }
+        }
+    }
     // fixpoint
     match wal::parse(&b1, &cfg) {
         Ok(Ok(mut m3)) => {
